@@ -39,3 +39,69 @@ pub fn game_side_only(white: bool) -> Game {
         state,
     }
 }
+
+// ---- symbolic scalars ---------------------------------------------------------------------------
+pub fn sym_code() -> u8 { let c = nd::u8(); nd::assume(crate::spec::valid_code(c)); c }
+pub fn sym_piece_code() -> u8 { let c = sym_code(); nd::assume(c != 0); c }
+pub fn sym_place() -> Option<Piece> { super::adapt::place_of(sym_code()) }
+pub fn sym_piece() -> Piece { super::adapt::place_of(sym_piece_code()).unwrap() }
+pub fn sym_sq() -> usize { nd::usize_below(64) }
+pub fn sym_pos() -> Position { pos_of(sym_sq()) }
+pub fn sym_player() -> Player { player(nd::bool()) }
+pub fn sym_promo_type() -> PieceType {
+    match nd::u8_in(0, 3) { 0 => PieceType::Queen, 1 => PieceType::Rook, 2 => PieceType::Bishop, _ => PieceType::Knight }
+}
+
+// ---- symbolic games -----------------------------------------------------------------------------
+use super::super::gamestate::verif_gamestate as gs;
+
+macro_rules! rep64 { ($e:expr) => { [$e,$e,$e,$e,$e,$e,$e,$e,$e,$e,$e,$e,$e,$e,$e,$e,$e,$e,$e,$e,$e,$e,$e,$e,$e,$e,$e,$e,$e,$e,$e,$e,$e,$e,$e,$e,$e,$e,$e,$e,$e,$e,$e,$e,$e,$e,$e,$e,$e,$e,$e,$e,$e,$e,$e,$e,$e,$e,$e,$e,$e,$e,$e,$e] } }
+/// 64 independent symbolic square contents, written without a loop (no unwinding needed)
+pub fn sym_board() -> [Option<Piece>; 64] { rep64!(sym_place()) }
+pub fn sym_u64x64() -> [u64; 64] { rep64!(nd::u64()) }
+pub fn sym_i16x64() -> [i16; 64] { rep64!(nd::i16()) }
+
+/// state stack holding `below` arbitrary entries under a top entry with bitfield `top`
+pub fn stack(below: usize, top: u8) -> ArrayVec<GameState, 512> {
+    let mut st = ArrayVec::new();
+    if below >= 1 { st.push(gs::mk(nd::u8())); }
+    if below >= 2 { st.push(gs::mk(nd::u8())); }
+    if below >= 3 { st.push(gs::mk(nd::u8())); }
+    st.push(gs::mk(top));
+    st
+}
+
+/// A game with every field symbolic ("lean": caches are arbitrary, NOT consistent with the board).
+/// Harnesses add exactly the WF clauses their contract needs as assumptions.
+pub fn sym_game(below: usize, endgame_king: bool) -> Game {
+    Game {
+        score: nd::i16(),
+        current_player: sym_player(),
+        move_stack: Vec::new(),
+        phase: if endgame_king { GamePhase::Endgame } else { GamePhase::Opening },
+        hash: nd::u64(),
+        board: sym_board(),
+        past_scores: sym_i16x64(),
+        past_hashes: sym_u64x64(),
+        piece_scores: tables(endgame_king),
+        king_positions: [sym_pos(), sym_pos()],
+        state: stack(below, nd::u8()),
+    }
+}
+
+/// A game whose caches are all zero (for contracts that never read them: generation, attack detection)
+pub fn sym_game_nocache(below: usize) -> Game {
+    Game {
+        score: 0,
+        current_player: sym_player(),
+        move_stack: Vec::new(),
+        phase: GamePhase::Opening,
+        hash: 0,
+        board: sym_board(),
+        past_scores: [0; 64],
+        past_hashes: [0; 64],
+        piece_scores: tables(false),
+        king_positions: [sym_pos(), sym_pos()],
+        state: stack(below, nd::u8()),
+    }
+}
